@@ -270,6 +270,8 @@ fn shapes(quick: bool) -> Vec<Shape> {
     }
     // full turns starting anywhere on a 1/400-turn grid (the sweep end minus start is a rounded f32 difference)
     for start400 in -400..=400 { for (profile, sec, capped) in [(0u32, 5u32, true), (1, 8, true), (3, 6, false)] { if quick && start400 % 2 != 0 && profile != 0 { continue; } v.push(Shape::LatheTurn { profile, sec, start400, capped }); } }
+    // many segments (accumulated altitude / height stepping): every count up to 200 on a few sector counts
+    for seg in 11..=200u32 { for r in [0.5f32, 1.0, 3.0] { v.push(Shape::Sphere { sec: 3 + seg % 3, seg, r }); } v.push(Shape::Cone { sec: 4, seg, capped: true, rb: 1.0, ra: 0.0 }); v.push(Shape::Cone { sec: 4, seg, capped: true, rb: 0.0, ra: 0.4 }); v.push(Shape::Capsule { sec: 3, body: 1, cap: seg, r: 0.5 }); }
     // many sectors (accumulated rotation of the profile)
     for sec in [154u32, 155, 200, 500, 720, 1000, 2000] { v.push(Shape::Sphere { sec, seg: 2, r: 1.0 }); v.push(Shape::Cyl { sec, seg: 1, capped: true, r: 0.5 }); }
     v.push(Shape::Sphere { sec: 100, seg: 60, r: 3.0 });
@@ -300,6 +302,6 @@ fn main() {
     });
     rep.set("shapes", all.len() as u64);
     rep.finish(&cfg, "exploration",
-        "every Platonic solid; boxes over a corner lattice; Sphere/Torus/Cylinder/Cone/Capsule for EVERY sector and segment count from the minimum up to the tier bound x radii lattice {0.5, 1, 3} x capped/uncapped (cones with zero apex or base radius); radii 1e-7 .. 1e4 on a thinned set of counts; Lathe profiles (non-unit profile normals) with full and partial azimuth ranges, built through Lathe::new and as struct literals; capped full-turn lathes starting at every multiple of 1/400 turn in -1..1; sector counts up to 2000. Per mesh: valid indices, unit normals, surface equation, vertex normals on the geometric-normal side of every non-degenerate face, one winding sense relative to the outside (outward), and after merging coincident vertices every directed edge exactly once with its reverse and V-E+F = 2 (torus 0) for closed solids / simple boundary rings of the expected size for open ones. non-trivial = mesh passed all applicable checks with >= 1 non-degenerate face.",
+        "every Platonic solid; boxes over a corner lattice; Sphere/Torus/Cylinder/Cone/Capsule for EVERY sector and segment count from the minimum up to the tier bound x radii lattice {0.5, 1, 3} x capped/uncapped (cones with zero apex or base radius); radii 1e-7 .. 1e4 on a thinned set of counts; Lathe profiles (non-unit profile normals) with full and partial azimuth ranges, built through Lathe::new and as struct literals; capped full-turn lathes starting at every multiple of 1/400 turn in -1..1; sector counts up to 2000 and every segment count up to 200. Per mesh: valid indices, unit normals, surface equation, vertex normals on the geometric-normal side of every non-degenerate face, one winding sense relative to the outside (outward), and after merging coincident vertices every directed edge exactly once with its reverse and V-E+F = 2 (torus 0) for closed solids / simple boundary rings of the expected size for open ones. non-trivial = mesh passed all applicable checks with >= 1 non-degenerate face.",
         &["merge epsilon 1e-4 x mesh size; degenerate = merged corners or area <= 1e-6 size^2", "outside defined per shape family (centre / axis / tube centre); generic Lathe profiles are not judged for outward sense", "partial-azimuth lathes are judged as open shapes"]);
 }
